@@ -16,11 +16,15 @@ BUDGET_S = {"quick": 110, "thorough": 1150}
 EXHAUSTIVE = {"quick": False, "thorough": False}
 RULE = ("random DAGs on 2..5 data columns (plus sometimes a column outside the model), cardinalities 1..4, "
         "integer / pandas Categorical / object columns, declared-but-unseen states (state_names in shuffled "
-        "order), unseen parent configurations, `_weight` rows, estimators MLE / K2 / BDeu(ess 1, 5, 2.5) / "
-        "dirichlet array / dirichlet scalar, n_jobs 1|2, entry points BayesianNetwork.fit, DAG.fit, "
+        "order), unseen parent configurations, `_weight` rows (exact dyadics: ordinary, 2^-40..2^20 mixed, whole "
+        "configurations of total weight ~2^-35, all tiny, all large, zero weights; MLE also refitted with every "
+        "weight scaled by 2^-30 and 2^17), estimators MLE / K2 / BDeu(ess 1, 5, 2.5) / "
+        "dirichlet array / dirichlet scalar, n_jobs 1|2|-1, entry points BayesianNetwork.fit, DAG.fit, "
         "Estimator.get_parameters; fit_update with existing CPDs declared with shuffled (unsorted) parents and "
-        "shuffled state names; EM without latents and with one latent variable (init_cpds or seed), max_iter "
-        "1..3; rejection stream (node missing from data, undeclared state, wrong pseudo_counts shape).  A case "
+        "shuffled state names; EM without latents and with one latent variable (init_cpds for all / some / none of the latent-involved "
+        "nodes, the rest drawn from seed and reproduced for the model), max_iter 1..3, batch_size "
+        "None|1|2|3|4|7 against the number of distinct rows, atol None|0.01|0.2 with pgmpy's stopping rule "
+        "applied to the model's iterates, default/explicit latent_card, progress bar on/off; rejection stream (node missing from data, undeclared state, wrong pseudo_counts shape).  A case "
         "is non-trivial when some node has >=1 parent and >=2 states; distinct = distinct canonical input")
 TRUSTED_BASE = ["pandas groupby/size/sum/unstack/reindex, numpy transpose/reshape, joblib: modelled by their "
                 "documented meaning (counting functions over rows), tied by this correspondence run",
@@ -112,6 +116,41 @@ def parents_of(case, i):
     return [u for (u, v) in case["edges"] if v == i]
 
 
+def dyw(rng, lo, hi):
+    """an exact dyadic weight m * 2^e, e in [lo, hi], as [num, den]"""
+    m = rng.choice([1, 1, 3, 5, 7])
+    e = rng.randint(lo, hi)
+    return [m * 2**e, 1] if e >= 0 else [m, 2**(-e)]
+
+
+def gen_weights(rng, rows, mode):
+    """`_weight` columns.  ordinary: small dyadics; wide: 2^-40..2^20 mixed in one frame; tiny-config: every row
+    with one chosen state of one chosen column (a whole parent configuration / a root state) has a weight of order
+    2^-33..2^-40 (non-zero, unequal) while the rest is ordinary; all-tiny / huge: every weight tiny / large;
+    zeros: some weights exactly 0, sometimes a whole configuration"""
+    if mode == "ordinary":
+        return [rng.choice([[1, 1], [1, 2], [2, 1], [1, 4], [3, 2], [5, 1], [3, 8]]) for _ in rows]
+    if mode == "wide":
+        return [dyw(rng, -40, 20) for _ in rows]
+    if mode == "all-tiny":
+        return [dyw(rng, -40, -31) for _ in rows]
+    if mode == "huge":
+        return [dyw(rng, 10, 20) for _ in rows]
+    c = rng.randrange(len(rows[0]))
+    v = rng.choice(rows)[c]
+    out = []
+    for r in rows:
+        hit = r[c] == v
+        if mode == "tiny-config":
+            out.append(dyw(rng, -40, -33) if hit else rng.choice([[1, 1], [1, 2], [2, 1], [3, 2], [5, 1]]))
+        else:  # zeros
+            if hit and rng.random() < 0.85:
+                out.append([0, 1])
+            else:
+                out.append([0, 1] if rng.random() < 0.15 else rng.choice([[1, 1], [1, 2], [2, 1], [3, 8]]))
+    return out
+
+
 def gen_fit(rng, tier):
     n = rng.randint(2, 5)
     extra = rng.random() < 0.2
@@ -121,15 +160,17 @@ def gen_fit(rng, tier):
     cols = [gen_col(rng, c) for c in cards]
     nrows = rng.choice([1, 2, 3, 5, 8, 12, 20])
     rows = gen_rows(rng, cols, nrows)
-    weights = None
-    if rng.random() < 0.35:
-        weights = [rng.choice([[1, 1], [1, 2], [2, 1], [1, 4], [3, 2], [5, 1], [3, 8]]) for _ in rows]
+    weights, wmode = None, None
+    if rng.random() < 0.45:
+        wmode = rng.choice(["ordinary", "ordinary", "wide", "tiny-config", "all-tiny", "zeros", "huge"])
+        weights = gen_weights(rng, rows, wmode)
     colorder = list(range(len(names)))
     rng.shuffle(colorder)
     case = {"kind": "fit", "names": names, "nodes": nodes, "edges": [list(e) for e in edges], "cols": cols,
-            "rows": rows, "weights": weights, "colorder": colorder,
+            "rows": rows, "weights": weights, "wmode": wmode, "colorder": colorder,
             "api": rng.choice(["bnfit", "bnfit", "dagfit", "est"]),
-            "n_jobs": 2 if rng.random() < 0.06 else 1, "loky": tier == "thorough", "mseed": rng.randint(0, 10**9)}
+            "n_jobs": rng.choice([2, 2, -1]) if rng.random() < 0.08 else 1, "loky": tier == "thorough",
+            "mseed": rng.randint(0, 10**9)}
     est = rng.choice(["mle", "mle", "k2", "bdeu", "bdeu", "dirichlet", "dirichlet", "scalar"])
     case["est"] = est
     if est == "bdeu":
@@ -228,7 +269,7 @@ def gen_fit_update(rng, tier):
     colorder = list(range(n))
     rng.shuffle(colorder)
     case = {"kind": "fit_update", "names": names, "nodes": nodes, "edges": [list(e) for e in edges], "cols": cols,
-            "rows": rows, "weights": None, "colorder": colorder, "n_jobs": 2 if rng.random() < 0.05 else 1,
+            "rows": rows, "weights": None, "colorder": colorder, "n_jobs": rng.choice([2, -1]) if rng.random() < 0.06 else 1,
             "n_prev": rng.choice([None, [1, 1], [8, 1], [3, 1], [5, 2], [100, 1]])}
     prev = {}
     for i in nodes:
@@ -248,11 +289,15 @@ def gen_em(rng, tier, latent):
     nodes, edges = common.rand_dag(rng, n, p=rng.choice([0.35, 0.6]))
     cards = [rng.choice([1, 2, 2, 3]) for _ in range(n)]
     cols = [gen_col(rng, c, declare_p=0.3, extra_p=0.3) for c in cards]
-    rows = gen_rows(rng, cols, rng.choice([2, 4, 6, 9]), skew=False)
+    rows = gen_rows(rng, cols, rng.choice([2, 4, 6, 9, 12, 16]), skew=False)
     colorder = list(range(n))
     rng.shuffle(colorder)
     case = {"kind": "em1" if latent else "em0", "names": names, "nodes": nodes, "edges": [list(e) for e in edges],
-            "cols": cols, "rows": rows, "weights": None, "colorder": colorder, "lat": None}
+            "cols": cols, "rows": rows, "weights": None, "colorder": colorder, "lat": None,
+            # optional parameters of get_parameters: batch size of the E-step relative to the number of DISTINCT
+            # rows (non-divisors included), convergence tolerance, progress bar, default latent cardinality
+            "batch_size": rng.choice([None, None, 1, 2, 3, 4, 7]), "atol": rng.choice([None, None, None, 0.01, 0.2]),
+            "show_progress": rng.random() < 0.3, "lc_default": rng.random() < 0.5, "probe0": rng.random() < 0.15}
     st = col_states(case)
     cardof = {i: len(st[i]) for i in range(n)}
     if latent:
@@ -270,14 +315,17 @@ def gen_em(rng, tier, latent):
                 case["edges"].append([rng.choice(cand), L])
         rng.shuffle(case["edges"])
         need = set([L] + kids)
-        case["mode"] = rng.choice(["init", "init", "seed"])
+        case["mode"] = rng.choice(["init", "init", "seed", "partial"])
         case["seed"] = rng.randint(0, 1000)
     else:
         need = set()
         case["mode"] = "init"
     extra_init = set(v for v in range(n) if rng.random() < 0.4)
     init = {}
-    if case["mode"] == "init":
+    if case["mode"] == "partial":
+        # init_cpds for only some of the latent-involved nodes; the rest is drawn by pgmpy from `seed`
+        need = set(rng.sample(sorted(need), rng.randint(1, len(need) - 1))) if len(need) > 1 else set()
+    if case["mode"] in ("init", "partial"):
         for i in sorted(need | extra_init):
             ps = parents_of(case, i)
             rng.shuffle(ps)
@@ -534,7 +582,7 @@ def prior_wire(case, vid):
 def pgmpy_fit(case, df, edges=None, nodes=None):
     """returns {name: TabularCPD} and the fitted model (or None)"""
     import joblib
-    if case["n_jobs"] > 1 and not case.get("loky"):
+    if case["n_jobs"] == -1 or (case["n_jobs"] > 1 and not case.get("loky")):
         # quick tier: joblib's thread backend (the default process backend costs ~20 s per worker process to
         # import pgmpy once); the thorough tier uses the default backend
         with joblib.parallel_config(backend="threading"):
@@ -554,6 +602,8 @@ def _pgmpy_fit(case, df, edges=None, nodes=None):
     elif est == "bdeu":
         e = case["ess"][0] / case["ess"][1]
         kw = {"prior_type": "BDeu", "equivalent_sample_size": int(e) if e == int(e) and case["mseed"] % 2 else e}
+        if case["mseed"] % 5 == 0:  # the per-node dict form of equivalent_sample_size
+            kw["equivalent_sample_size"] = {case["names"][i]: e for i in case["nodes"]}
     elif est == "scalar":
         c = case["c"][0] / case["c"][1]
         kw = {"prior_type": "dirichlet", "pseudo_counts": int(c) if c == int(c) else c}
@@ -617,7 +667,7 @@ def run_fit(case, drv):
         nan_total += r
         named_impl[i] = cpd_named_values(case, st, i, cpds[names[i]])
     tags = ["fit est=" + case["est"], "api=" + case["api"], "n_jobs=%d" % case["n_jobs"],
-            "weighted" if case["weights"] else "unweighted", "cols=%d" % len(names), "rows=%d" % len(rows)]
+            "weights=%s" % (case.get("wmode") or "none"), "cols=%d" % len(names), "rows=%d" % len(rows)]
     if m is not None and finding is None:
         try:
             valid = bool(m.check_model())
@@ -648,6 +698,16 @@ def run_fit(case, drv):
         for i in fitted_nodes:
             if not same_named(named_impl[i], cpd_named_values(case, st, i, cp2[names[i]])):
                 return bad("impl!=spec:%s-invariance" % label, {"node": str(names[i])})
+    if case["weights"] and case["est"] == "mle":
+        # weighted MLE is count/total: multiplying EVERY weight by a common factor changes nothing
+        for sh in (-30, 17):
+            c3 = dict(c1)
+            c3["weights"] = [[w_[0] * 2**sh, w_[1]] if sh > 0 else [w_[0], w_[1] * 2**(-sh)] for w_ in case["weights"]]
+            cp3, _ = pgmpy_fit(c3, make_frame(c3), None, None)
+            for i in fitted_nodes:
+                if not same_named(named_impl[i], cpd_named_values(case, st, i, cp3[names[i]])):
+                    return bad("impl!=spec:weight-scale-invariance", {"node": str(names[i]), "factor": "2^%d" % sh})
+        tags.append("weight-scale-metamorphic")
     has_unseen_state = any(len(st[i]) > len(set(r[i] for r in case["rows"])) for i in case["nodes"])
     unseen_cfg = False
     for i in case["nodes"]:
@@ -675,7 +735,7 @@ def _key(case):
     return [case["kind"], case["names"], sorted(map(tuple, case["edges"])), case["rows"], case.get("weights"),
             [(c["type"], c["univ"], c["declared"]) for c in case["cols"]], case.get("est"), case.get("ess"),
             case.get("pcs"), case.get("prev"), case.get("n_prev"), case.get("init"), case.get("lat_card"),
-            case.get("seed"), case.get("mode")]
+            case.get("seed"), case.get("mode"), case.get("batch_size"), case.get("atol")]
 
 
 # ------------------------------------------------------------------ rejection paths
@@ -854,17 +914,30 @@ def run_em(case, drv):
         cur[i] = [vid[i], [vid[u] for u in sp["parents"]], [[fr(c) for c in row] for row in sp["table"]]]
     tags = [case["kind"], "mode=" + case["mode"], "rows=%d" % len(rows)]
 
-    def pg_em(k):
+    def make_em():
         g = make_graph(case, BayesianNetwork, nodes=allnodes, latents=latents)
-        em = ExpectationMaximization(g, df, state_names=sn) if sn else ExpectationMaximization(g, df)
-        kw = {"max_iter": k, "show_progress": False}
-        if L is not None:
+        return ExpectationMaximization(g, df, state_names=sn) if sn else ExpectationMaximization(g, df)
+
+    def pg_em(k):
+        em = make_em()
+        kw = {"max_iter": k, "show_progress": bool(case.get("show_progress"))}
+        if L is not None and not (case.get("lc_default") and case["lat_card"] == 2):
             kw["latent_card"] = {names[L]: case["lat_card"]}
-        if case["mode"] == "init":
+        if init_keys:
             kw["init_cpds"] = {names[i]: make_tabular(case, st, i, case["init"][str(i)]) for i in init_keys}
-        else:
+        if case["mode"] != "init":
             kw["seed"] = case["seed"]
+        if case.get("batch_size"):
+            kw["batch_size"] = case["batch_size"]
+        if case.get("atol") is not None:
+            kw["atol"] = case["atol"]
         return {c.variable: c for c in em.get_parameters(**kw)}
+
+    atol = 1e-8 if case.get("atol") is None else case["atol"]
+    tags += ["batch_size=%s" % case.get("batch_size"), "atol=%s" % case.get("atol"),
+             "distinct-rows=%d" % len(set(map(tuple, rows)))]
+    if case.get("batch_size") and len(set(map(tuple, rows))) % case["batch_size"]:
+        tags.append("batch_size-not-a-divisor-of-distinct-rows")
 
     if case["kind"] == "em0":
         # no latent variable: EM == MLE (model's MLE and pgmpy's own MLE)
@@ -892,51 +965,121 @@ def run_em(case, drv):
                 r = compare_cpd(case, st, vid, i, got[names[i]], named, ps_ids, 1e-6, "em-no-latent-mstep")
                 if isinstance(r, dict):
                     return r
+        probe_max_iter_0(case, pg_em, tags)
         return ok(nontrivial=bool(case["edges"]), key=common.canon_key(_key(case)), tags=tags + ["init=%d" % len(init_keys)])
 
     # one latent variable
-    prev_ll = None
-    if case["mode"] == "init":
-        g0 = {names[i]: make_tabular(case, st, i, case["init"][str(i)]) for i in init_keys}
-        if fixed:
-            gm = make_graph(case, BayesianNetwork, nodes=allnodes)
-            mm = MaximumLikelihoodEstimator.__new__(MaximumLikelihoodEstimator)
-            e0 = ExpectationMaximization(make_graph(case, BayesianNetwork, nodes=allnodes, latents=latents), df,
-                                         **({"state_names": sn} if sn else {}))
-            mm.model, mm.data, mm.state_names = gm, e0.data, e0.state_names
-            for i in fixed:
-                g0[names[i]] = mm.estimate_cpd(names[i])
-        prev_ll = loglik(case, st, g0)
+    from pgmpy.factors.discrete import TabularCPD
+    # CPDs that pgmpy initialises at random (mode seed / partial): TabularCPD.get_random is a function of
+    # (variable, evidence order, cardinalities, seed), so the harness reproduces the same draw and hands it to the model
+    rnd_nodes = [i for i in moving if i not in init_keys]
+    g0 = {names[i]: make_tabular(case, st, i, case["init"][str(i)]) for i in init_keys}
+    if rnd_nodes:
+        em_probe = make_em()
+        inv_name = {names[k]: k for k in range(len(names))}
+        for i in rnd_nodes:
+            par = list(em_probe.model_copy.predecessors(names[i]))
+            c0 = TabularCPD.get_random(variable=names[i], evidence=par,
+                                       cardinality={v: len(st[inv_name[v]]) for v in [names[i]] + par},
+                                       state_names={v: [raw(_col(case, inv_name[v]), s_) for s_ in st[inv_name[v]]]
+                                                    for v in [names[i]] + par}, seed=case["seed"])
+            g0[names[i]] = c0
+            vals = c0.get_values()
+            cur[i] = [vid[i], [vid[inv_name[v]] for v in par],
+                      [[Fraction(round(float(vals[x][j]) * 2**32), 2**32) for j in range(vals.shape[1])]
+                       for x in range(vals.shape[0])]]
+    if fixed:
+        gm = make_graph(case, BayesianNetwork, nodes=allnodes)
+        mm = MaximumLikelihoodEstimator.__new__(MaximumLikelihoodEstimator)
+        e0 = make_em()
+        mm.model, mm.data, mm.state_names = gm, e0.data, e0.state_names
+        for i in fixed:
+            g0[names[i]] = mm.estimate_cpd(names[i])
+    prev_ll = loglik(case, st, g0)
+
+    def as_named(entry, i):
+        ps_ids = entry[1]
+        cfgs = list(itertools.product(*[range(cards[p]) for p in ps_ids]))
+        return ps_ids, {(x, tuple(pi)): entry[2][x][j] for j, pi in enumerate(cfgs) for x in range(len(st[i]))}
+
+    def by_sorted(entry, i):
+        """named values keyed by the SORTED parent ids (entries may list parents in another order)"""
+        ps_ids, named = as_named(entry, i)
+        order = sorted(range(len(ps_ids)), key=lambda t: ps_ids[t])
+        return {(x, tuple(pi[t] for t in order)): v for (x, pi), v in named.items()}
+
+    # ---- the model's iterations, with pgmpy's stopping rule: all(|old - new| <= atol + 1e-5 * |new|)
+    expected = {}
+    stopped, knife = None, False
+    for k in (1, 2, 3):
+        cpd_list = [cur[i] for i in allnodes]
+        _, mrep = drv.call("c06_em_iter", [cards, cols, rows, [vid[L]], cpd_list, CLAMP,
+                                           [[vid[i], gparents(i)] for i in moving]])
+        new = {}
+        conv = True
+        for i, rp in zip(moving, mrep):
+            ps_ids, named = decode_named(rp)
+            new[i] = (ps_ids, named)
+            old_named = by_sorted(cur[i], i)
+            for key_, v in named.items():
+                d = abs(float(v) - float(old_named[key_]))
+                thr = atol + 1e-5 * abs(float(v))
+                if d > thr:
+                    conv = False
+                if 0.98 * thr <= d <= 1.02 * thr:
+                    knife = True
+        expected[k] = new
+        if knife:
+            break
+        if conv:
+            stopped = k
+            break
+        for i in moving:
+            ps_ids, named = new[i]
+            cfgs = list(itertools.product(*[range(cards[p]) for p in ps_ids]))
+            # the next model iteration starts from the model's values rounded to a 2^-32 grid: exact
+            # rationals would otherwise square their size at every iteration (error << the 1e-6 tolerance)
+            cur_i = [[Fraction(round(v * 2**32), 2**32) for v in row] for row in named_to_table(named, len(st[i]), cfgs)]
+            cur[i] = [vid[i], ps_ids, cur_i]
+    fixed_named = {i: as_named(cur[i], i) for i in fixed}
     for k in (1, 2, 3):
         got = pg_em(k)
         ll = loglik(case, st, got)
         # TEST (not a theorem): observed-data likelihood never decreases from one iteration to the next
-        if prev_ll is not None and not (ll >= prev_ll - 1e-8 * (1 + abs(prev_ll))):
+        if not (ll >= prev_ll - 1e-8 * (1 + abs(prev_ll))):
             return bad("impl!=spec:em-likelihood-decreased(test)", {"iteration": k, "before": prev_ll, "after": ll})
         prev_ll = ll
-        if case["mode"] == "init":
-            cpd_list = [cur[i] for i in allnodes]
-            _, mrep = drv.call("c06_em_iter", [cards, cols, rows, [vid[L]], cpd_list, CLAMP,
-                                               [[vid[i], gparents(i)] for i in moving]])
-            for i, rp in zip(moving, mrep):
-                ps_ids, named = decode_named(rp)
+        kk = min(k, stopped) if stopped else k
+        if kk in expected and not (knife and kk == max(expected) and k > kk):
+            for i in moving:
+                ps_ids, named = expected[kk][i]
                 r = compare_cpd(case, st, vid, i, got[names[i]], named, ps_ids, 1e-6, "em-iter%d" % k)
                 if isinstance(r, dict):
                     return r
-                cfgs = list(itertools.product(*[range(cards[p]) for p in ps_ids]))
-                # the next model iteration starts from the model's values rounded to a 2^-32 grid: exact
-                # rationals would otherwise square their size at every iteration (error << the 1e-6 tolerance)
-                cur[i] = [vid[i], ps_ids, [[Fraction(round(v * 2**32), 2**32) for v in row]
-                                           for row in named_to_table(named, len(st[i]), cfgs)]]
-            for i in fixed:
-                ps_ids = cur[i][1]
-                cfgs = list(itertools.product(*[range(cards[p]) for p in ps_ids]))
-                named = {(x, tuple(pi)): cur[i][2][x][j] for j, pi in enumerate(cfgs) for x in range(len(st[i]))}
-                r = compare_cpd(case, st, vid, i, got[names[i]], named, ps_ids, 1e-6, "em-fixed")
-                if isinstance(r, dict):
-                    return r
+        for i in fixed:
+            ps_ids, named = fixed_named[i]
+            r = compare_cpd(case, st, vid, i, got[names[i]], named, ps_ids, 1e-6, "em-fixed")
+            if isinstance(r, dict):
+                return r
     tags.append("latent_card=%d" % case["lat_card"])
+    if stopped:
+        tags.append("converged-at-iteration-%d" % stopped)
+    if knife:
+        tags.append("convergence-knife-edge")
+    probe_max_iter_0(case, pg_em, tags)
     return ok(nontrivial=True, key=common.canon_key(_key(case)), tags=tags)
+
+
+def probe_max_iter_0(case, pg_em, tags):
+    """max_iter=0 is OUTSIDE the property's domain (it speaks of iterations, max_iter >= 1): either behaviour is
+    accepted and only tagged.  pgmpy as coded leaves `new_cpds` unassigned (UnboundLocalError)."""
+    if not case.get("probe0"):
+        return
+    try:
+        pg_em(0)
+        tags.append("out-of-domain max_iter=0: returned")
+    except UnboundLocalError:
+        tags.append("out-of-domain max_iter=0: UnboundLocalError")
 
 
 def run_case(case, drv):
